@@ -8,6 +8,7 @@
 #include "ResourceManager.h"
 #include "Archive/ClmFile.h"
 #include "Archive/VolFile.h"
+#include <unistd.h>
 #include <algorithm>
 #include <map>
 #include <set>
@@ -149,6 +150,21 @@ struct ResourceLayout : Family {
 			uint64_t c = r.below(100);
 			std::string q = r.chance(1, 8) ? randName(r, 1, 6, false) : caseVariant(pool[r.below(pool.size())], r.below(6));
 			if (dotslash) c = 83 + c % 17; // archives / arcq only
+			else if (i >= 2 && r.chance(1, 10)) {
+				// the directory changes while the manager lives: a loose file appears (or is rewritten) or vanishes; "if one exists" is
+				// decided by the library at each call (it probes the disk every time), so the answer must follow the directory, not the past
+				std::string nm = pool[r.below(pool.size())];
+				std::string low = lower(nm);
+				bool archiveLike = low.size() >= 4 && (low.rfind(".vol") == low.size() - 4 || low.rfind(".clm") == low.size() - 4);
+				if (!archiveLike) {
+					op = mkline("op", r.chance(2, 3) ? "appear" : "vanish");
+					op.set("q", quoteToken(nm)).set("cseed", hex64(r.next())).set("len", r.below(300));
+					p.ops.push_back(op);
+					// ask for it right away as well
+					Line g = mkline("op", "get"); g.set("q", quoteToken(caseVariant(nm, 0))).set("arch", 1); p.ops.push_back(g);
+					continue;
+				}
+			}
 			if (c < 40) { op = mkline("op", "get"); op.set("q", quoteToken(q)).set("arch", r.chance(3, 4) ? 1 : 0); }
 			else if (c < 45) { op = mkline("op", "get"); op.set("q", quoteToken(r.chance(1, 2) ? "/" + q : "/abs/" + q)).set("arch", 1); }
 			else if (c < 57) { op = mkline("op", "type"); op.set("ext", quoteToken(std::string(EXT[r.below(4)]))).set("arch", r.chance(3, 4) ? 1 : 0); }
@@ -184,6 +200,24 @@ struct ResourceLayout : Family {
 			ctx.setOp(oi);
 			ctx.schedNote(op.verb);
 			const std::string& v = op.verb;
+			if (v == "appear" || v == "vanish") {
+				std::string q = unquoteToken(op.get("q"));
+				std::string path = std::string(kDir) + "/" + q;
+				if (q.empty() || q.find('/') != std::string::npos || disk::isDir(path)) continue;
+				if (v == "appear") {
+					// exact spelling only: on this case-sensitive file system another spelling would be another file
+					std::vector<uint8_t> bytes = prngBytes(op.u("cseed", 1), static_cast<size_t>(op.u("len", 0)));
+					disk::put(path, bytes);
+					L.loose[q] = bytes;
+					ctx.count("probe.loose_file_appeared_during_lifetime");
+				} else if (L.loose.count(q)) {
+					::unlink(path.c_str());
+					L.loose.erase(q);
+					ctx.count("probe.loose_file_vanished_during_lifetime");
+				}
+				ctx.event(v);
+				continue;
+			}
 			if (v == "get") {
 				std::string q = unquoteToken(op.get("q"));
 				bool arch = op.u("arch", 1) != 0;
